@@ -1051,6 +1051,9 @@ int ov_halfrate(OggVorbis_File *vf,int flag){
     vf->ready_state=STREAMSET;
     if(vf->pcm_offset>=0){
       ogg_int64_t pos=vf->pcm_offset;
+      /* a half-rate read to the end of an odd-length stream leaves
+         the position one past the total */
+      if(vf->seekable && pos>ov_pcm_total(vf,-1))pos=ov_pcm_total(vf,-1);
       vf->pcm_offset=-1; /* make sure the pos is dumped if unseekable */
       ov_pcm_seek(vf,pos);
     }
